@@ -33,7 +33,7 @@ def main():
         try:
             if req['gen'] == 'env':
                 from vlib import envdef
-                b = envdef.Builder(req['spec'])
+                b = envdef.builder(req['spec'])
             else:
                 b = (graph.Builder if req['gen'] == 'c01'
                      else mcgen.Builder)(req['spec'])
